@@ -173,6 +173,21 @@ def r17_3(ctx, fam, cont, entry_fns, entries_fns, make_owned, plain_read, entry_
         one = is_const_int(add[3], 1)
         facts = conds.bare(conds.dominating_facts(b, loc[0]))
         borrowed = any(x[0] == "variant" and x[2] == frozenset(["Borrowed"]) for x in facts)
+        # ... and *whenever* the entry borrows the cursor: every path from the Borrowed edge reaches the increment (an early
+        # return - e.g. while the thread is panicking - leaves the cursor where it is and the traversal yields the same element again)
+        always = True
+        for sblk in sorted(b.reachable()):
+            info = conds.switch_info(b, sblk)
+            if not info:
+                continue
+            for t_, fs in info["edges"].items():
+                if any(x[0] == "variant" and x[2] == frozenset(["Borrowed"]) for x in fs) and b.edge_dominates((sblk, t_), loc[0]):
+                    always = b.post_dominated_by(t_, [loc[0]]) and b.must_pass(0, sblk, [sblk]) and not any(
+                        b.term(x)["k"] == "return" for x in b.reachable_from(0, avoid_blocks=[sblk]))
+        if one and borrowed and not always:
+            ctx.violated("R17.3", f, "drop-advances-by-one", b.line_at(loc),
+                         "the entry's Drop can return without advancing a borrowed cursor (a path bypasses the `+= 1`): a traversal then yields the same element again and `for_each` may never terminate")
+            continue
         ctx.verdict(one and borrowed, "R17.3", f, "drop-advances-by-one", b.line_at(loc), "Drop adds exactly 1 to the cursor, only in the Borrowed state",
                     "the entry's Drop %s" % ("adds %s to the cursor instead of 1: elements are skipped" % fmt(add[3]) if not one else "advances the cursor outside the Borrowed state"))
     # remove via make_owned; set / index via plain read
